@@ -235,11 +235,13 @@ class WholeSystem(Part):
         return ('real System objects: every field of System + 3 routines + all models set to a distinct legal value '
                 'through {rc file, option strings without rc file, option strings over an rc file with other values, '
                 'option strings over an rc file lacking the sections}; save_config -> new System round trip; dict '
-                'channel; Config.update with legal and illegal values for every field with declared alternatives')
+                'channel; Config.update with legal and illegal values for every field with declared alternatives; histories '
+                '[save | print]? -> Config.update(all fields) -> save_config -> new System')
 
     def cases(self, tier):
         out = [dict(mode=m, salt=s) for m in ('file', 'options_norc', 'options_over_file', 'options_over_partial',
-                                              'roundtrip', 'dict', 'update') for s in (0, 1)]
+                                              'roundtrip', 'dict', 'update', 'update_roundtrip',
+                                              'save_update_roundtrip', 'print_update_roundtrip') for s in (0, 1)]
         return out
 
     def init_worker(self):
@@ -295,6 +297,24 @@ class WholeSystem(Part):
                         out.bad('roundtrip_changes_value_or_type', f'{s}.{f}: {a!r} ({type(a).__name__}) -> '
                                 f'{b!r} ({type(b).__name__}) after save_config + load', field=f'{s}.{f}')
                         break
+            elif mode in ('update_roundtrip', 'save_update_roundtrip', 'print_update_roundtrip'):
+                # history: [save | print]? -> Config.update(dict) on every section -> save_config -> new System
+                s1 = self.build(default_config=True)
+                rc0 = rc + '.first'
+                if mode == 'save_update_roundtrip':
+                    s1.save_config(rc0, overwrite=True)
+                elif mode == 'print_update_roundtrip':
+                    for sec in {s for s, f in want}:
+                        repr(_cfg(s1, sec))
+                        _cfg(s1, sec).doc()
+                by_sec = {}
+                for (s, f), v in want.items():
+                    by_sec.setdefault(s, {})[f] = v
+                for sec, vals in by_sec.items():
+                    _cfg(s1, sec).update(vals)
+                rc2 = rc + '.saved'
+                s1.save_config(rc2, overwrite=True)
+                ss = self.build(config_path=rc2)
             elif mode == 'dict':
                 sysvals = {f: v for (s, f), v in want.items() if s == 'System'}
                 ss = self.build(default_config=True, config=sysvals)
